@@ -70,9 +70,14 @@ fn check_e1504_index_size_mismatch(ctx: &ValidationContext) -> Result<(), Format
 
     let (matrix_size, is_correct_index) = ctx
         .matrices
-        .and_then(|matrices| matrices.first())
-        .map(|matrix| (matrix.distances.len() as Float).sqrt().round() as usize)
-        .map_or((0_usize, true), |matrix_size| (matrix_size, max_index + 1 == matrix_size));
+        .and_then(|matrices| matrices.first().map(|matrix| (matrices, matrix)))
+        .map(|(matrices, matrix)| (matrices, (matrix.distances.len() as Float).sqrt().round() as usize))
+        .map_or((0_usize, true), |(matrices, matrix_size)| {
+            // NOTE a matrix which is not square would be indexed out of its bounds later
+            let is_square = matrices.iter().all(|matrix| matrix.distances.len() == matrix_size * matrix_size);
+
+            (matrix_size, max_index + 1 == matrix_size && is_square)
+        });
 
     if !is_correct_index {
         Err(FormatError::new(
